@@ -56,8 +56,8 @@ func (c Case) desc() string {
 	switch c.Kind {
 	case "perm":
 		return fmt.Sprintf("perm order=%v | %s", c.Order, c.Sc.Desc())
-	case "callers":
-		return fmt.Sprintf("callers n=%d | %s", c.Callers, c.Sc.Desc())
+	case "callers", "callers-cancel", "callers-panic":
+		return fmt.Sprintf("%s n=%d | %s", c.Kind, c.Callers, c.Sc.Desc())
 	case "panic":
 		return fmt.Sprintf("panic at=%v together=%v | %s", c.PanicAt, c.Together, c.Sc.Desc())
 	}
@@ -214,6 +214,17 @@ func Cases(quick bool, seed int64) []Case {
 			a := mkScenario(4, []int{2, 8, 5}, "validate", "http", "healthy")
 			b := mkScenario(5, []int{3, 9, 10, 1}, "validate", "http", "healthy")
 			out = append(out, Case{Kind: "callers", Sc: a, Sc2: &b, Callers: n})
+		}
+	}
+	// concurrent callers where a fault (cancellation / a single panic) hits ONE
+	// caller only: the others must be unaffected
+	for rep := 0; rep < repeat*2; rep++ {
+		for _, n := range []int{2, 3, 4, 8} {
+			for _, a := range [][]int{{3}, {2, 10}, {8, 5, 3}, {10, 3, 2, 9}} {
+				sc := mkScenario(len(a)+1, a, "validate", "http", []string{"", "healthy"}[rep%2])
+				out = append(out, Case{Kind: "callers-cancel", Sc: sc, Callers: n})
+				out = append(out, Case{Kind: "callers-panic", Sc: sc, Callers: n})
+			}
 		}
 	}
 	// panic injection
@@ -422,6 +433,8 @@ func execCase(idx int, c Case) Record {
 		execPerm(&rec, c)
 	case "callers":
 		execCallers(&rec, c)
+	case "callers-cancel", "callers-panic":
+		execCallersFault(&rec, c)
 	case "panic":
 		execPanic(&rec, c)
 	case "cancel":
@@ -745,6 +758,106 @@ func execCallers(rec *Record, c Case) {
 	rec.Exchanges = net.Requests()
 	rec.Canon = fmt.Sprintf("%d results compared, %d cache operations", n, len(cache.Log()))
 	afterCall(rec, envA)
+}
+
+// execCallersFault runs n callers over one shared validator / client / fetcher
+// / cache and lets a fault hit caller 0 only: either its context is cancelled
+// while every first exchange is held at the barrier, or the very first
+// exchange on the network panics once. Every other caller must get exactly the
+// reference result.
+func execCallersFault(rec *Record, c Case) {
+	net := netsim.New()
+	env := c.Sc.PrepareOn(net)
+	client := net.Client()
+	hf, err := crl.NewHTTPFetcher(client)
+	if err != nil {
+		rec.Inconcl = err.Error()
+		return
+	}
+	if c.Sc.Cache != "" {
+		hf.Cache = sims.NewCache()
+	}
+	v, err := revocation.NewWithOptions(revocation.Options{OCSPHTTPClient: client, CRLFetcher: hf})
+	if err != nil {
+		rec.Inconcl = err.Error()
+		return
+	}
+	bar := net.UseBarrier()
+	var panicked atomic.Bool
+	if c.Kind == "callers-panic" {
+		net.OnRequest = func(n int, r *netsim.Request) {
+			if n == 0 && panicked.CompareAndSwap(false, true) {
+				panic("injected-panic@first-exchange")
+			}
+		}
+	}
+	ctx0, cancel0 := context.WithCancel(context.Background())
+	defer cancel0()
+	outs := make([]*sims.Outcome, c.Callers)
+	cr := callWithWatchdog(func() *sims.Outcome {
+		var wg sync.WaitGroup
+		for i := 0; i < c.Callers; i++ {
+			wg.Add(1)
+			go func(i int) {
+				defer wg.Done()
+				ctx := context.Background()
+				if i == 0 && c.Kind == "callers-cancel" {
+					ctx = ctx0
+				}
+				o := &sims.Outcome{Chain: env.Chain}
+				o.Panic = core.Guard(func() {
+					o.Results, o.Err = v.ValidateContext(ctx, revocation.ValidateContextOptions{CertChain: env.Chain, AuthenticSigningTime: sims.SigningTime})
+				})
+				outs[i] = o
+			}(i)
+			if i == 0 {
+				// let caller 0 get to the network first: it is the one that
+				// would lead any shared work
+				deadline := time.Now().Add(time.Second)
+				for bar.ParkedCount() == 0 && !panicked.Load() && time.Now().Before(deadline) {
+					time.Sleep(50 * time.Microsecond)
+				}
+			}
+		}
+		// give the other callers time to arrive at (or wait behind) the held exchanges
+		deadline := time.Now().Add(300 * time.Millisecond)
+		want := len(active(&c.Sc)) * c.Callers
+		for bar.ParkedCount() < want && time.Now().Before(deadline) {
+			time.Sleep(100 * time.Microsecond)
+		}
+		if c.Kind == "callers-cancel" {
+			cancel0()
+			time.Sleep(time.Millisecond)
+		}
+		bar.Open()
+		wg.Wait()
+		return &sims.Outcome{}
+	})
+	bar.Open()
+	if cr.stuck != "" {
+		stuckRecord(rec, cr.stuck)
+		return
+	}
+	rec.Exchanges = net.Requests()
+	hit := 0
+	for i, o := range outs {
+		if o == nil {
+			continue
+		}
+		if i == 0 && c.Kind == "callers-cancel" {
+			continue // the cancelled caller's own result is not judged here
+		}
+		if c.Kind == "callers-panic" && o.Panic != nil && o.Panic.Value == "injected-panic@first-exchange" && hit == 0 {
+			hit++ // exactly one caller owns the panic
+			continue
+		}
+		if d := compareWithReference(&c.Sc, o); d != "" {
+			rec.Sig, rec.What = "fault-on-one-caller-reaches-another", fmt.Sprintf("caller %d was not the one hit by the %s, yet: %s", i, strings.TrimPrefix(c.Kind, "callers-"), d)
+			return
+		}
+	}
+	rec.Canon = fmt.Sprintf("%d callers, %d exchanges, fault owner excluded", c.Callers, rec.Exchanges)
+	afterCall(rec, env)
 }
 
 func execPanic(rec *Record, c Case) {
